@@ -2,7 +2,8 @@ from common import STATEX_ASSUME
 
 CHECK = dict(
     pkgs=["dkg/bcast"],
-    libs=["enumx"],
+    libs=["enumx", "schedx", "vsync"],
+    vsync=["dkg/bcast/server.go"],
     run="TestVerifC13",
     level="model_checking",
     engine="statex",
@@ -14,7 +15,7 @@ CHECK = dict(
           "complete sets observed from honest broadcasts",
     trusted="the fake libp2p host (handlers are invoked directly with the authenticated sender id, as p2p.RegisterHandler would after decoding); "
             "recording wrapper around each member's real signer",
-    rule="BFS, successor = replay of the event history on fresh real components + one event; distinct = distinct global states",
+    rule="Part B: preemption-bounded interleavings (<=2 quick, <=3 thorough) of concurrent signature requests of a faulty sender for two payloads at every honest member, scheduling points at the servers' locks, followed by the delivery attempt; Part A: BFS, successor = replay of the event history on fresh real components + one event; distinct = distinct global states",
     assumptions=["authenticated streams: a handler sees the true peer id of the caller",
                  "one faulty member; payload alphabet {1,2} for the faulty member and one fixed payload per honest member; message ids {msg,msg2}"],
     budget_s={"quick": 100, "thorough": 1500},
